@@ -14,14 +14,16 @@ def _gen(ctx, seed):
     return [json.loads(x) for x in open(out)]
 
 
-def _rerun(ctx, rec):
+def _rerun(ctx, rec, before=()):
     """re-executes the INPUTS of one record alone on the real code and lets TLC judge the new record"""
     vh = ctx.build(PKG)
     d = ctx.sub("replay")
     i, o = os.path.join(d, "in.ndjson"), os.path.join(d, "out.ndjson")
-    open(i, "w").write(json.dumps(rec) + "\n")
-    ctx.run([vh, "meta-rerun", "-in", i, "-out", o], timeout=600)
-    new = json.loads(open(o).read())
+    with open(i, "w") as fh:       # the cases `before` are executed first, in the same fresh process
+        for b in list(before) + [rec]:
+            fh.write(json.dumps(b) + "\n")
+    ctx.run([vh, "meta-rerun", "-in", i, "-out", o], timeout=1800)
+    new = json.loads(open(o).read().splitlines()[-1])
     bad = ctx.validate("Trace_Meta", [new], shards=1)
     if bad and bad[0][1] and bad[0][1].get("genbug"):
         raise Machinery("record outside the property's domain: %s" % json.dumps(bad[0][1])[:600])
@@ -97,6 +99,7 @@ def run(ctx):
             raise Machinery("generator produced a call outside the property's domain: ctor=%s a=%s name=%s bpm=%s datalen=%d" %
                             (r.get("ctor"), r.get("a"), r.get("name"), (r.get("bpm") or {}).get("dec"), len(r.get("data") or [])))
         fails.append(Failure(_signature(r, info), _describe(r, info), {"family": "meta", "record": _payload_record(r, info)}))
+        fails[-1].before = [x for x in recs[max(0, idx - 400):idx]]
     fails.sort(key=lambda f: len(json.dumps(f.payload)))
     calls = [r for r in recs if r["ev"] == "call"]
     nsweep = sum(len(r["bytes"]) for r in recs if r["ev"] == "seqsweep")
@@ -119,10 +122,14 @@ def run(ctx):
               [{"ctor": r["ctor"], "a": r["a"], "name": r["name"], "bpm": r["bpm"]["dec"], "datalen": len(r["data"]), "bytes": r["bytes"][:10]}
                for r in (calls[0], calls[len(calls) // 3], calls[len(calls) // 2], calls[-1])])
     ctx.log("C15: %d calls + %d swept sequence numbers, %d rejected" % (len(calls), nsweep, len(bad)))
-    ctx.report(fails, lambda f: _rerun(ctx, f.payload["record"])[0])
+
+    def confirm(f):
+        return _rerun(ctx, f.payload["record"])[0]
+    confirm.in_context = lambda before, f: _rerun(ctx, f.payload["record"], before)[0]
+    ctx.report(fails, confirm)
 
 
 def replay(ctx, payload):
-    ok, new, info = _rerun(ctx, payload["payload"]["record"])
+    ok, new, info = _rerun(ctx, payload["payload"]["record"], payload["payload"].get("context") or ())
     print(json.dumps({"info": info})[:3000])
     return ok
